@@ -11,7 +11,10 @@ package main
 
 import (
 	"context"
+	"encoding/json"
 	"fmt"
+	"runtime"
+	"strings"
 	"time"
 
 	"tunnox-core/internal/core/storage/hybrid"
@@ -30,6 +33,8 @@ type nodesOut struct {
 	Shared  [][]any    `json:"shared"`
 	Pers    [][]any    `json:"pers"`
 	Cats    []int      `json:"cats"`
+	Intend  []int      `json:"intended"` // class by the shipped prefix tables, most specific (longest) prefix wins
+	Async   []asyncRec `json:"async"`
 	Viol    []nodeViol `json:"viol"`
 	WbMiss  bool       `json:"wb_missing"`
 }
@@ -40,6 +45,21 @@ type nodeViol struct {
 	Step   int    `json:"step"`
 	Reader int    `json:"reader"`
 	Writer int    `json:"writer"`
+}
+
+// intendedCategory: the class the shipped configuration means the key to have — the longest matching prefix over the three
+// configured tables and the documented runtime prefixes wins (0 runtime, 1 persistent, 2 shared, 3 shared+persistent)
+func intendedCategory(key string) int {
+	cfg := hybrid.DefaultConfig()
+	best, cat := -1, 0
+	for c, tbl := range [][]string{hybrid.RuntimePrefixes, cfg.PersistentPrefixes, cfg.SharedPrefixes, cfg.SharedPersistentPrefixes} {
+		for _, p := range tbl {
+			if strings.HasPrefix(key, p) && len(p) > best {
+				best, cat = len(p), c
+			}
+		}
+	}
+	return cat
 }
 
 func runNodes(c caseIn) *nodesOut {
@@ -105,26 +125,45 @@ func runNodes(c caseIn) *nodesOut {
 	}
 	for _, k := range c.Keys {
 		out.Cats = append(out.Cats, hybrid.VerifCategory(hs[0], k))
+		out.Intend = append(out.Intend, intendedCategory(k))
 	}
+	// judged by the INTENDED class, not by what getCategory happens to answer: a key of a shared class written on one node
+	// must be visible on every node
 	crossVisible := func(k int) bool {
-		cat := out.Cats[k]
+		cat := out.Intend[k]
 		return (c.Pers && (cat == 1 || cat == 3)) || (c.Shared && (cat == 2 || cat == 3))
 	}
-	latest := make([]string, len(c.Keys))
-	writer := make([]int, len(c.Keys))
+	// the register a read is judged against: ONE per key for cross-node visible classes, one per (node, key) otherwise
+	// (a cache-only key lives in each node's private cache)
+	type slotKey struct{ node, k int }
+	latestM := map[slotKey]string{}
+	writerM := map[slotKey]int{}
+	slot := func(node, k int) slotKey {
+		if crossVisible(k) {
+			return slotKey{-9, k}
+		}
+		return slotKey{node, k}
+	}
 	for k, key := range c.Keys {
-		latest[k], writer[k] = "none", -2
+		init := "none"
 		if pd != nil {
 			if v, ok := pd.m[key]; ok {
-				latest[k] = canon(encVal(v))
-				continue
+				init = canon(encVal(v))
 			}
 		}
-		if sharedU != nil {
+		if init == "none" && sharedU != nil {
 			if v, err := sharedU.Get(key); err == nil {
-				latest[k] = canon(encVal(v))
+				init = canon(encVal(v))
 			}
 		}
+		latestM[slotKey{-9, k}], writerM[slotKey{-9, k}] = init, -2
+	}
+	getLatest := func(node, k int) (string, int) {
+		sl := slot(node, k)
+		if v, ok := latestM[sl]; ok {
+			return v, writerM[sl]
+		}
+		return "none", -2
 	}
 	wait := 3 * time.Second
 	for si, st := range c.Steps {
@@ -134,14 +173,16 @@ func runNodes(c caseIn) *nodesOut {
 		} else {
 			h, _ = mk()
 		}
+		before := runtime.NumGoroutine()
 		res := doOp(h, c.Keys, st.Op)
-		done := make(chan struct{})
-		go func() { s.wg.Wait(); close(done) }()
-		select {
-		case <-done:
-		case <-time.After(wait):
-			out.WbMiss = true
-			wait = 50 * time.Millisecond
+		// sequential history: whatever the facade spawned (the old write-back, or anything else) lands before the next step
+		for deadline := time.Now().Add(wait); runtime.NumGoroutine() > before && spawnedPending(allStacks()) > 0; {
+			if time.Now().After(deadline) {
+				out.WbMiss = true
+				wait = 50 * time.Millisecond
+				break
+			}
+			time.Sleep(30 * time.Microsecond)
 		}
 		out.Results = append(out.Results, res)
 		k := st.Op.K
@@ -153,28 +194,52 @@ func runNodes(c caseIn) *nodesOut {
 				if st.Op.L != nil {
 					v = []any{1, *st.Op.L}
 				}
-				latest[k], writer[k] = canon(v), st.Node
+				latestM[slot(st.Node, k)], writerM[slot(st.Node, k)] = canon(v), st.Node
 			}
 		case "del":
 			if code == 0 {
-				latest[k], writer[k] = "none", st.Node
+				latestM[slot(st.Node, k)], writerM[slot(st.Node, k)] = "none", st.Node
 			}
 		case "setnx":
 			if code == 4 && res[1] == true {
-				latest[k], writer[k] = canon([]any{0, st.Op.V}), st.Node
+				latestM[slot(st.Node, k)], writerM[slot(st.Node, k)] = canon([]any{0, st.Op.V}), st.Node
+			}
+		case "append", "remove":
+			if code == 0 {
+				var l []int
+				cur, _ := getLatest(st.Node, k)
+				if cur != "none" {
+					var dec []any
+					if json.Unmarshal([]byte(cur), &dec) == nil && len(dec) == 2 && toInt(dec[0]) == 1 {
+						for _, x := range dec[1].([]any) {
+							l = append(l, int(toInt(x)))
+						}
+					}
+				}
+				nl := []int{}
+				for _, x := range l {
+					if !(st.Op.Op == "remove" && x == st.Op.V) {
+						nl = append(nl, x)
+					}
+				}
+				if st.Op.Op == "append" {
+					nl = append(nl, st.Op.V)
+				}
+				latestM[slot(st.Node, k)], writerM[slot(st.Node, k)] = canon([]any{1, nl}), st.Node
 			}
 		case "get", "exists":
-			if !(crossVisible(k) || (st.Node >= 0 && st.Node == writer[k])) {
+			lat, wr := getLatest(st.Node, k)
+			if !(crossVisible(k) || (st.Node >= 0 && st.Node == wr)) {
 				continue
 			}
 			var obs, want string
 			switch {
 			case st.Op.Op == "get" && code == 3:
-				obs, want = canon(res[1]), latest[k]
+				obs, want = canon(res[1]), lat
 			case st.Op.Op == "get" && code == 2:
-				obs, want = "none", latest[k]
+				obs, want = "none", lat
 			case st.Op.Op == "exists" && code == 4:
-				obs, want = fmt.Sprint(res[1]), fmt.Sprint(latest[k] != "none")
+				obs, want = fmt.Sprint(res[1]), fmt.Sprint(lat != "none")
 			default:
 				continue
 			}
@@ -183,8 +248,8 @@ func runNodes(c caseIn) *nodesOut {
 				if st.Node >= 0 {
 					who = fmt.Sprintf("node %d", st.Node)
 				}
-				out.Viol = append(out.Viol, nodeViol{Kind: "cross-node-stale-read", K: k, Step: si, Reader: st.Node, Writer: writer[k],
-					Msg: fmt.Sprintf("step %d: %s of %q from %s returned %s, but the latest completed write (by node %d) is %s", si, st.Op.Op, c.Keys[k], who, obs, writer[k], latest[k])})
+				out.Viol = append(out.Viol, nodeViol{Kind: "cross-node-stale-read", K: k, Step: si, Reader: st.Node, Writer: wr,
+					Msg: fmt.Sprintf("step %d: %s of %q from %s returned %s, but the latest completed write (by node %d) is %s", si, st.Op.Op, c.Keys[k], who, obs, wr, lat)})
 			}
 		}
 	}
@@ -217,6 +282,9 @@ func runNodes(c caseIn) *nodesOut {
 		v, ok := pd.m[k]
 		return v, ok
 	})
+	s.mu.Lock()
+	out.Async = append([]asyncRec{}, s.async...)
+	s.mu.Unlock()
 	if out.Results == nil {
 		out.Results = [][]any{}
 	}
